@@ -678,6 +678,8 @@ impl UntypedStmt {
                         }
                         let pattern =
                             pattern.type_check(env, fns, defs, Some(binding.ty.clone()))?;
+                        // a `let` has no alternative, so its pattern must match every value:
+                        expect_irrefutable_pattern(&pattern, &binding.ty, defs, meta)?;
                         Ok(Stmt::new(StmtEnum::Let(pattern, ty.clone(), binding), meta))
                     }
                     Err(mut errors) => {
@@ -885,7 +887,8 @@ impl UntypedStmt {
                     let elem_ty = Type::Tuple(vec![elem_ty_a, elem_ty_b]);
                     let mut body_typed = Vec::with_capacity(body.len());
                     env.push();
-                    let pattern = pattern.type_check(env, fns, defs, Some(elem_ty))?;
+                    let pattern = pattern.type_check(env, fns, defs, Some(elem_ty.clone()))?;
+                    expect_irrefutable_pattern(&pattern, &elem_ty, defs, meta)?;
                     for stmt in body {
                         body_typed.push(stmt.type_check(top_level_defs, env, fns, defs)?);
                     }
@@ -900,7 +903,8 @@ impl UntypedStmt {
                     let elem_ty = expect_array_type(&binding.ty, meta)?;
                     let mut body_typed = Vec::with_capacity(body.len());
                     env.push();
-                    let pattern = pattern.type_check(env, fns, defs, Some(elem_ty))?;
+                    let pattern = pattern.type_check(env, fns, defs, Some(elem_ty.clone()))?;
+                    expect_irrefutable_pattern(&pattern, &elem_ty, defs, meta)?;
                     for stmt in body {
                         body_typed.push(stmt.type_check(top_level_defs, env, fns, defs)?);
                     }
@@ -1868,6 +1872,16 @@ fn join_array_size(a: &Type, b: &Type, meta: MetaInfo) -> Result<ConstExpr, Type
         ),
         MetaInfo::default(),
     ))
+}
+
+/// The patterns of `let` statements and `for` loops must match every value of the bound type.
+fn expect_irrefutable_pattern(
+    pattern: &TypedPattern,
+    ty: &Type,
+    defs: &Defs,
+    meta: MetaInfo,
+) -> Result<(), TypeErrors> {
+    check_exhaustiveness(&[pattern], ty, defs, meta).map_err(|e| vec![Some(e)])
 }
 
 // Implements the algorithm described at
